@@ -1,4 +1,5 @@
 import AnsiModel
+import AnsiSpec
 /-
   Line-protocol driver.  One step per input line, one result line per step.
   Input  : `<op> <integer tokens …>`      (strings as `<len> <code points…>`, `N` = None)
@@ -310,6 +311,15 @@ def step (op : String) : P String := do
         | .arg i => Py.intStr (args.getD i 0))).flatten
       pure ("ok " ++ showStr s)
     | _ => pure "untranslatable"
+  | "term" => do
+    let s ← pStr
+    let showSt (t : Term.TState) : String :=
+      let l := Term.allGroups.zipIdx.filterMap (fun (g, i) => (t g).map (fun v => (i, v)))
+      String.intercalate " " (toString l.length :: l.map (fun (i, v) =>
+        String.intercalate " " (toString i :: toString v.length :: v.map toString)))
+    let r := Term.run Term.default s
+    pure ("ok " ++ String.intercalate " " (toString r.1.length :: r.1.map (fun (c, t) => s!"{c.toNat} {showSt t}"))
+      ++ " | " ++ showSt r.2 ++ s!" | {if Term.wellFormed s then 1 else 0} " ++ showStr (Term.stripSgr s))
   | "tables" => do
     pure (s!"ok {Gen.paramTable.length} {Gen.clearTable.length} {Gen.ctrlFns.length} {Gen.formatTable.length}")
   | "format" => do
